@@ -397,7 +397,7 @@ pub fn gen_args(name: &str, sig: &str, r: &mut Rng) -> Vec<Val> {
 }
 
 /// candidates computed from the other arguments: the exact ties a data-dependent comparison could be sitting on
-fn relate(v: &mut Vec<Val>, r: &mut Rng) {
+pub fn relate(v: &mut Vec<Val>, r: &mut Rng) {
     let mut cands: Vec<f64> = Vec::new();
     for x in v.iter() {
         match x {
@@ -412,6 +412,21 @@ fn relate(v: &mut Vec<Val>, r: &mut Rng) {
     if let Some(d) = dict_pick(r) { for c in cands.clone() { cands.push(c * d); cands.push(c + d); } }
     let cands: Vec<f64> = cands.into_iter().filter(|c| c.is_finite()).collect();
     if cands.is_empty() || v.is_empty() { return; }
+    // one geometric number equal to an operation on two others (`r = speed * t`, `p = a + b`, …): the exact ties a shortcut keyed on
+    // `x == y * z` can sit on
+    let gidx: Vec<usize> = v.iter().enumerate().filter(|(_, x)| matches!(x, Val::G(_))).map(|(j, _)| j).collect();
+    if gidx.len() >= 3 && r.chance(1, 2) {
+        let i = *r.pick(&gidx);
+        let rest: Vec<usize> = gidx.iter().copied().filter(|&j| j != i).collect();
+        let (a, b) = (v[*r.pick(&rest)].g().unwrap(), v[*r.pick(&rest)].g().unwrap());
+        let k = r.below(5);
+        if let Ok(g) = std::panic::catch_unwind(move || r_op(a, b, k)) {
+            if g.mag.is_finite() && (g.mag == 0.0 || (g.mag.abs() >= 1e-100 && g.mag.abs() <= 1e100)) && canonical_rem(g.angle.rem()) {
+                v[i] = Val::G(Geonum::new_with_angle(g.mag.abs(), g.angle));
+                return;
+            }
+        }
+    }
     let i = r.below(v.len() as u64) as usize;
     let c = ulps(*r.pick(&cands), if r.chance(1, 2) { 0 } else { r.range(-1, 1) });
     let others: Vec<Geonum> = v.iter().enumerate().filter(|(j, _)| *j != i).filter_map(|(_, x)| x.g()).collect();
@@ -429,6 +444,10 @@ fn relate(v: &mut Vec<Val>, r: &mut Rng) {
         Val::A(a) => { let rem = c.abs(); Val::A(if canonical_rem(rem) { mk_angle(a.blade(), rem) } else { *a }) }
         o => o.clone(),
     };
+}
+
+fn r_op(a: Geonum, b: Geonum, k: u64) -> Geonum {
+    match k { 0 => a * b, 1 => a + b, 2 => a - b, 3 => b * a, _ => if b.mag != 0.0 { a / b } else { a * b } }
 }
 
 fn gen_args_base(name: &str, sig: &str, r: &mut Rng) -> Vec<Val> {
